@@ -153,7 +153,8 @@ func combinePorts(as string, bs string) (string, error) {
 	bBitset := parsePorts(bs)
 
 	aBitset.InPlaceIntersection(bBitset)
-	if aBitset.Len() == 0 {
+	if aBitset.None() {
+		// No port in common.  (Len() is the capacity of the bitset, not the number of set bits.)
 		return "", policysets.ErrRuleIsNoOp
 	}
 
@@ -184,7 +185,9 @@ func combinePorts(as string, bs string) (string, error) {
 }
 
 func parsePorts(portsStr string) *bitset.BitSet {
-	setOfPorts := bitset.New(2 ^ 16 + 1)
+	// One bit more than the largest port so that a range ending at the largest port in the set is still
+	// followed by a clear bit.  (2 ^ 16 is XOR in Go, not a power.)
+	setOfPorts := bitset.New(1<<16 + 1)
 	for p := range strings.SplitSeq(portsStr, ",") {
 		if strings.Contains(p, "-") {
 			// Range
